@@ -7,33 +7,40 @@ package flow
 // The exit indirection does not return (assumption A-exit); a call is recorded as evExit(code).
 //@ noreturn field Step.Exiter
 
+// DO / SUC / ERR / EXI are the heap columns Step.Do / Success / Error / Exiter (the command layer rewires steps while it
+// descends, so the specification takes them explicitly).
 // stepsWF: every step can exit, and a step that runs user code has an error successor (true of every chain cli builds)
-//@ pure static func stepsWF() bool = forall q *Step :: q != nil ==> q.Exiter != nil && (q.Do != nil ==> q.Error != nil)
+//@ pure func stepsWF(DO array[*Step]func(), ERR array[*Step]*Step, EXI array[*Step]func(int)) bool =
+//@     forall q *Step :: {DO[q]} {ERR[q]} {EXI[q]} q != nil ==> EXI[q] != nil && (DO[q] != nil ==> ERR[q] != nil)
 
 // User code is an oracle: cbReturns(f, n) says whether the call of f made when the trace had length n returns,
 // cbPanicVal(f, n) is what it raises otherwise (cli.Exit(k) raises ExitCode(k)).  Each call is the event evCall(f).
-//@ pure static func stepPanics(s *Step, t trace) bool = s.Do != nil && !cbReturns(s.Do, len(t))
-//@ pure static func stepT(s *Step, t trace) trace = s.Do != nil ? t ++ seq(evCall(s.Do)) : t
+// Every call of Run is marked in the ghost trace by evMark("Run", step).
+//@ pure func stepPanics(s *Step, t trace, DO array[*Step]func()) bool = DO[s] != nil && !cbReturns(DO[s], len(t))
+//@ pure func stepT(s *Step, t trace, DO array[*Step]func()) trace = DO[s] != nil ? t ++ seq(evCall(DO[s])) : t
+//@ pure func enter(q *Step, t trace) trace = t ++ seq(evMark("Run", q))
 // run*: the configuration (step, pending value, trace) walks Success links while user code returns and jumps to the
 // Error link with the raised value when it panics; at the end of the chain the pending value decides.
-// Every call of Run is marked in the ghost trace by evMark("Run", step); the walk therefore adds the successor's marker.
-//@ pure func enter(q *Step, t trace) trace = t ++ seq(evMark("Run", q))
-//@ pure static rec func runT(s *Step, p any, t trace) trace =
-//@     stepPanics(s, t) ? runT(s.Error, cbPanicVal(s.Do, len(t)), enter(s.Error, stepT(s, t))) :
-//@     s.Success != nil ? runT(s.Success, p, enter(s.Success, stepT(s, t))) :
-//@     (p != nil && isType(p, "ExitCode")) ? stepT(s, t) ++ seq(evExit(asType(p, "ExitCode"))) : stepT(s, t)
+//@ pure rec func runT(s *Step, p any, t trace, DO array[*Step]func(), SUC array[*Step]*Step, ERR array[*Step]*Step) trace =
+//@     stepPanics(s, t, DO) ? runT(ERR[s], cbPanicVal(DO[s], len(t)), enter(ERR[s], stepT(s, t, DO)), DO, SUC, ERR) :
+//@     SUC[s] != nil ? runT(SUC[s], p, enter(SUC[s], stepT(s, t, DO)), DO, SUC, ERR) :
+//@     (p != nil && isType(p, "ExitCode")) ? stepT(s, t, DO) ++ seq(evExit(asType(p, "ExitCode"))) : stepT(s, t, DO)
 // outcome: 0 returns normally, 1 raises runV, 2 exits
-//@ pure static rec func runK(s *Step, p any, t trace) int =
-//@     stepPanics(s, t) ? runK(s.Error, cbPanicVal(s.Do, len(t)), enter(s.Error, stepT(s, t))) :
-//@     s.Success != nil ? runK(s.Success, p, enter(s.Success, stepT(s, t))) :
+//@ pure rec func runK(s *Step, p any, t trace, DO array[*Step]func(), SUC array[*Step]*Step, ERR array[*Step]*Step) int =
+//@     stepPanics(s, t, DO) ? runK(ERR[s], cbPanicVal(DO[s], len(t)), enter(ERR[s], stepT(s, t, DO)), DO, SUC, ERR) :
+//@     SUC[s] != nil ? runK(SUC[s], p, enter(SUC[s], stepT(s, t, DO)), DO, SUC, ERR) :
 //@     p == nil ? 0 : (isType(p, "ExitCode") ? 2 : 1)
-//@ pure static rec func runV(s *Step, p any, t trace) any =
-//@     stepPanics(s, t) ? runV(s.Error, cbPanicVal(s.Do, len(t)), enter(s.Error, stepT(s, t))) :
-//@     s.Success != nil ? runV(s.Success, p, enter(s.Success, stepT(s, t))) : p
+//@ pure rec func runV(s *Step, p any, t trace, DO array[*Step]func(), SUC array[*Step]*Step, ERR array[*Step]*Step) any =
+//@     stepPanics(s, t, DO) ? runV(ERR[s], cbPanicVal(DO[s], len(t)), enter(ERR[s], stepT(s, t, DO)), DO, SUC, ERR) :
+//@     SUC[s] != nil ? runV(SUC[s], p, enter(SUC[s], stepT(s, t, DO)), DO, SUC, ERR) : p
 
 //@ func (*Step).Run
 //@   logged
-//@   requires wf: stepsWF() && s != nil
-//@   ensures normal: p == nil && runK(s, p, old(trace)) == 0 && trace == runT(s, p, old(trace))
-//@   panics raise: runK(s, p, old(trace)) == 1 && panicval == runV(s, p, old(trace)) && trace == runT(s, p, old(trace))
-//@   exits exit: runK(s, p, old(trace)) == 2 && trace == runT(s, p, old(trace))
+//@   requires wf: stepsWF(fieldHeap(s.Do), fieldHeap(s.Error), fieldHeap(s.Exiter)) && s != nil
+//@   ensures normal: p == nil && runK(s, p, old(trace), fieldHeap(s.Do), fieldHeap(s.Success), fieldHeap(s.Error)) == 0 &&
+//@       trace == runT(s, p, old(trace), fieldHeap(s.Do), fieldHeap(s.Success), fieldHeap(s.Error))
+//@   panics raise: runK(s, p, old(trace), fieldHeap(s.Do), fieldHeap(s.Success), fieldHeap(s.Error)) == 1 &&
+//@       panicval == runV(s, p, old(trace), fieldHeap(s.Do), fieldHeap(s.Success), fieldHeap(s.Error)) &&
+//@       trace == runT(s, p, old(trace), fieldHeap(s.Do), fieldHeap(s.Success), fieldHeap(s.Error))
+//@   exits exit: runK(s, p, old(trace), fieldHeap(s.Do), fieldHeap(s.Success), fieldHeap(s.Error)) == 2 &&
+//@       trace == runT(s, p, old(trace), fieldHeap(s.Do), fieldHeap(s.Success), fieldHeap(s.Error))
